@@ -707,7 +707,7 @@ func corpusC10() []*Bundle {
 func init() {
 	register(&Property{
 		ID: "C10", Race: true, Plain: true, Level: "exploration",
-		Rule:   "cases = rapid-generated: (fault) grammar queries with 1-2 stub faults (error / panic(error) / panic(string)) at a drawn invocation index of a drawn call site, sites in select list, WHERE, CASE, function argument, subquery, EXISTS, IN-subquery, derived table, CTE, union branch, HAVING and as ASYNC/SPIN/SPINASYNC background calls, with drawn latencies and np/walk/pct schedules; (pjoin) PARALLEL and sequential joins whose ON hits a type error or a failing/panicking stub on a drawn row, with cold selector names, run in a -race child; (mutated) 30 base queries under 1-4 byte/token mutations; (bytes) arbitrary byte strings; (odd_doc) documents of arbitrary JSON shape; (options) all 2^3 option sets; plus a fixed corpus of the statement's named cases and of failing background work per strategy x placement x fault kind; oracle = control returned and no PANIC_ESCAPED / BG_PANIC / DEADLOCK / STEP_BUDGET / FATAL / unsynchronised map access; non-trivial = >=2 tasks runnable at some yield, or a fault fired, or non-identity map order; distinct = distinct case-file hash; plus every built-in under every qualifier with 0-4 arbitrary arguments, the `<-` marker read as a value and array-of-arrays sources under DISTINCT, nested run-once strategies, selectors through ExecReader, PARALLEL joins whose sides hold arrays, Go-typed inputs",
+		Rule:   "cases = rapid-generated: (fault) grammar queries with 1-2 stub faults (error / panic(error) / panic(string)) at a drawn invocation index of a drawn call site, sites in select list, WHERE, CASE, function argument, subquery, EXISTS, IN-subquery, derived table, CTE, union branch, HAVING and as ASYNC/SPIN/SPINASYNC background calls, with drawn latencies and np/walk/pct schedules; (pjoin) PARALLEL and sequential joins whose ON hits a type error or a failing/panicking stub on a drawn row, with cold selector names, run in a -race child; (mutated) 30 base queries under 1-4 byte/token mutations; (bytes) arbitrary byte strings; (odd_doc) documents of arbitrary JSON shape; (options) all 2^3 option sets; plus a fixed corpus of the statement's named cases and of failing background work per strategy x placement x fault kind; oracle = control returned and no PANIC_ESCAPED / BG_PANIC / DEADLOCK / STEP_BUDGET / FATAL / unsynchronised map access; non-trivial = >=2 tasks runnable at some yield, or a fault fired, or non-identity map order; distinct = distinct case-file hash; plus every built-in under every qualifier with 0-4 arbitrary arguments, the `<-` marker read as a value and array-of-arrays sources under DISTINCT, nested run-once strategies, selectors through ExecReader, PARALLEL joins whose sides hold arrays, Go-typed inputs; UnReportedErrors handlers that panic, PARALLEL workers failing in different ways at once",
 		Corpus: corpusC10, Gen: genC10, Eval: evalC10, QuickChecks: 1500,
 		Assumptions: []string{
 			"the input-space quantifier (all byte strings, all documents) is only sampled; the simulator decides the schedule x fault part",
